@@ -312,6 +312,11 @@ func RunWith[C any](t *testing.T, col *Collector, gen func(t *rapid.T) C, check 
 		if err != nil {
 			rt.Fatalf("case is not serialisable: %v", err)
 		}
+		if cur := os.Getenv("VERIF_CURRENT"); cur != "" {
+			// Remember the case being evaluated: if the code under test kills the process
+			// (fatal runtime error, out of memory) the driver reports this file as the replay.
+			_ = os.WriteFile(cur, data, 0o644)
+		}
 		r := safeCheck(col.prop, check, c)
 		if v := col.Record(data, r); v != nil {
 			rt.Fatalf("violation [%s]: %s\ncase: %s", v.Sig, v.Msg, truncate(string(data), 4000))
